@@ -169,6 +169,7 @@ class DiameterAssociation(object):
 
         self.state_is_active = False
         self._stop_threads = True
+        self.postprocess_recv_messages_ready.set()
         self.transport.close()
         self.transport = None
 
@@ -292,20 +293,22 @@ class DiameterAssociation(object):
 
 
     def get_postprocess_recv_message(self):
-        self.lock.acquire()
-        diameter_conn_logger.debug("Acquired DiameterAssociation lock")
+        with self.lock:
+            diameter_conn_logger.debug("Acquired DiameterAssociation lock")
 
-        self.postprocess_recv_messages_lock.acquire()
-        msg = self.postprocess_recv_messages.get()
-        self.postprocess_recv_messages_lock.release()
+            with self.postprocess_recv_messages_lock:
+                try:
+                    msg = self.postprocess_recv_messages.get(block=False)
+                except queue.Empty:
+                    msg = None
 
-        make_logging(msg)
+            self.postprocess_recv_messages_ready.clear()
+            diameter_conn_logger.debug("Cleared go ahead for "\
+                                       "postprocess_recv_messages_ready")
 
-        self.postprocess_recv_messages_ready.clear()
-        diameter_conn_logger.debug("Cleared go ahead for "\
-                                   "postprocess_recv_messages_ready")
+            if msg is not None:
+                make_logging(msg)
 
-        self.lock.release()
         diameter_conn_logger.debug("Released DiameterAssociation lock")
         return msg
 
@@ -319,8 +322,10 @@ class DiameterAssociation(object):
             else:
                 diameter_conn_logger.debug("No need to wait for go ahead for "\
                                            "postprocess_recv_messages_ready")
-    
-            return self.get_postprocess_recv_message()
+
+            msg = self.get_postprocess_recv_message()
+            if msg is not None:
+                return msg
 
 
     def tracking_events(self) -> None:
